@@ -19,9 +19,11 @@ import (
 
 // C28 — sample-based tracks timestamp and sequence RTP without drift.
 //
-// Rig: one TrackLocalStaticSample bound to one fake TrackLocalContext whose writer records
+// Rig: one TrackLocalStaticSample bound to fake TrackLocalContexts whose writers record
 // (sequence number, timestamp, marker, payload length) of every packet. WriteSample is synchronous,
-// so the packets recorded during one call are the packets of that sample.
+// so the packets recorded during one call are the packets of that sample. The set of bound writers follows a
+// generated binding history (c28_bindings_test.go): further Binds, Unbinds, re-Binds and periods with no writer
+// at all are interleaved with the samples; every writer bound while a sample is written is judged.
 //
 // Oracle (independent of the implementation's float64 remainder arithmetic): the timeline is kept as an
 // exact rational number of ticks, total = Σ dur_ns·rate/1e9 (math/big), and the sequence counter as a
@@ -30,7 +32,11 @@ import (
 //   * that timestamp is ts0 + floor(total before the sample) (mod 2^32) within one tick; "before the sample"
 //     includes, for a sample reporting N dropped packets, N times the sample's own duration (the only
 //     duration the sample carries for the lost packets — "the corresponding duration");
-//   * sequence numbers: +1 per packet (mod 2^16), after first skipping N for a sample reporting N drops.
+//   * sequence numbers: +1 per packet (mod 2^16), after first skipping N for a sample reporting N drops;
+//   * every writer bound during a sample observes that same numbering (the statement is per bound writer and the
+//     expected numbering does not depend on the writer). Samples written while no writer is bound still belong to
+//     "earlier samples" for the timeline; how many packets they produced cannot be observed, so the sequence
+//     counter is re-synchronised at the next observed packet (timestamps stay judged across the gap).
 
 type c28Pkt struct {
 	seq    uint16
@@ -172,25 +178,22 @@ func c28Gen(r *kit.Rand, rate uint32, n int) []c28Sample {
 			s.Size = r.Range(1, 5*outboundMTU)
 		}
 		if r.Chance(pDrop) {
-			switch r.Intn(8) {
-			case 0:
-				s.Drop = uint16(r.Range(1, 65535))
-			case 1:
-				s.Drop = uint16(r.Range(100, 2000))
-			default:
-				s.Drop = uint16(r.Range(1, 12))
-			}
 			// keep one step (skip + sample) below 2^32 ticks: beyond that the float64→uint32 conversion is
 			// platform-defined in Go, and 13 h of media in one step at 90 kHz is outside the statement's "durations"
-			for new(big.Int).Mul(big.NewInt(d), big.NewInt(int64(rate)*int64(s.Drop)+int64(rate))).Cmp(
-				new(big.Int).Mul(big.NewInt(1e9), big.NewInt(1<<32-1<<20))) > 0 {
-				s.Drop /= 2
-			}
+			s.Drop = c28DrawDrop(r, d, rate)
 		}
 		out[k] = s
 	}
 
 	return out
+}
+
+func c28Head(p []c28Pkt) string {
+	if len(p) > 6 {
+		return fmt.Sprint(p[:6]) + "..."
+	}
+
+	return fmt.Sprint(p)
 }
 
 func c28Hash(samples []c28Sample) string {
@@ -203,10 +206,11 @@ func c28Hash(samples []c28Sample) string {
 }
 
 func TestVerifC28(t *testing.T) { //nolint:gocyclo,cyclop,maintidx
-	run := kit.Start(t, "C28", "seeded sample sequences (50..5000 samples quick, up to 100000 thorough) written to a TrackLocalStaticSample bound to one recording "+
-		"writer, cycling through every default codec that has a payloader (clock rates 8000/48000/90000), real codec payloader or a content-independent chunker; "+
+	run := kit.Start(t, "C28", "seeded sample sequences (50..5000 samples quick, up to 100000 thorough) written to a TrackLocalStaticSample bound to recording "+
+		"writers that follow a generated binding history (30% one binding for the whole sequence; otherwise 1..20 Bind/Unbind/re-Bind operations at random sample "+
+		"positions, up to 4 writers at once, possibly none for a while; drops injected shortly after a Bind in 60% of those), cycling through every default codec that has a payloader (clock rates 8000/48000/90000), real codec payloader or a content-independent chunker; "+
 		"durations from fractional-tick classes (1/30 s, 20 ms ± ns, 1 ns, 0, k ticks ± 1 ns, random, seconds), sizes 0 and 1..5 MTU, random PrevDroppedPackets; "+
-		"a sequence is non-trivial when it contains a sample split into ≥ 2 packets AND a duration that is not a whole number of ticks; distinct by codec+origin+hash of the sample list")
+		"a sequence is non-trivial when it contains a sample split into ≥ 2 packets AND a duration that is not a whole number of ticks; distinct by codec+origin+hash of the sample list+hash of the binding history")
 	defer run.Finish()
 
 	run.Assume("a single step (sample duration, or PrevDroppedPackets × duration) stays below 2^32 ticks: beyond that the code's float64→uint32 conversion is " +
@@ -253,6 +257,8 @@ func TestVerifC28(t *testing.T) { //nolint:gocyclo,cyclop,maintidx
 			nSamples = r.Range(50, 300)
 		}
 		samples := c28Gen(r, rate, nSamples)
+		history, histClass := c28GenHistory(r, nSamples)
+		c28DropsAfterBindingChange(r, rate, samples, history)
 
 		fixedTS, fixedSeq := !r.Chance(0.1), !r.Chance(0.1)
 		var ts0 uint32
@@ -285,8 +291,8 @@ func TestVerifC28(t *testing.T) { //nolint:gocyclo,cyclop,maintidx
 			opts = append(opts, WithPayloader(func(RTPCodecCapability) (rtp.Payloader, error) { return c28Chunker{}, nil }))
 		}
 
-		desc := fmt.Sprintf("%s/%d pt=%d n=%d ts0=%d(%v) seq0=%d(%v) chunker=%v samples=%s", strings.ToLower(codec.MimeType), rate, codec.PayloadType,
-			nSamples, ts0, fixedTS, seq0, fixedSeq, useChunker, c28Hash(samples))
+		desc := fmt.Sprintf("%s/%d pt=%d n=%d ts0=%d(%v) seq0=%d(%v) chunker=%v samples=%s bindings=%s", strings.ToLower(codec.MimeType), rate, codec.PayloadType,
+			nSamples, ts0, fixedTS, seq0, fixedSeq, useChunker, c28Hash(samples), c28HistHash(history))
 		detail := func(k int, extra map[string]any) map[string]any {
 			lo := k - 3
 			if lo < 0 {
@@ -299,8 +305,15 @@ func TestVerifC28(t *testing.T) { //nolint:gocyclo,cyclop,maintidx
 			d := map[string]any{
 				"codec": codec.MimeType, "clock_rate": rate, "fmtp": codec.SDPFmtpLine, "n_samples": nSamples, "fixed_ts": fixedTS, "ts0": ts0,
 				"fixed_seq": fixedSeq, "seq0": seq0, "chunker": useChunker, "failing_sample_index": k,
-				"samples_around": samples[lo:hi], "samples_around_first_index": lo,
+				"samples_around": samples[lo:hi], "samples_around_first_index": lo, "binding_history_class": histClass,
 			}
+			var done []c28Op
+			for _, op := range history {
+				if op.At <= k {
+					done = append(done, op)
+				}
+			}
+			d["binding_ops_before_failure"] = done
 			if k < 400 {
 				d["samples_prefix"] = samples[:k+1]
 			}
@@ -317,10 +330,47 @@ func TestVerifC28(t *testing.T) { //nolint:gocyclo,cyclop,maintidx
 
 			return
 		}
-		w := &c28Writer{}
-		ctx := &c28Ctx{id: fmt.Sprintf("c28-%d", i), codecs: codecs, ssrc: SSRC(r.Uint32() | 1), w: w}
-		if _, err = track.Bind(ctx); err != nil {
-			run.Violation("bind-error:"+strings.ToLower(codec.MimeType), fmt.Sprintf("Bind of default codec failed: %v (%s)", err, desc), i, detail(0, nil))
+		// bound contexts in Bind order; slot = index into the history's numbering
+		type boundCtx struct {
+			slot int
+			ctx  *c28Ctx
+		}
+		var bound []boundCtx
+		binds, unbinds, maxBound := 0, 0, 0
+		bind := func(slot int) bool {
+			ctx := &c28Ctx{id: fmt.Sprintf("c28-%d-%d", i, slot), codecs: codecs, ssrc: SSRC(r.Uint32() | 1), w: &c28Writer{}}
+			if _, err := track.Bind(ctx); err != nil {
+				run.Violation("bind-error:"+strings.ToLower(codec.MimeType), fmt.Sprintf("Bind #%d of default codec failed: %v (%s)", binds+1, err, desc), i, detail(0, nil))
+
+				return false
+			}
+			binds++
+			bound = append(bound, boundCtx{slot, ctx})
+			if len(bound) > maxBound {
+				maxBound = len(bound)
+			}
+
+			return true
+		}
+		unbind := func(slot int) bool {
+			for k := range bound {
+				if bound[k].slot != slot {
+					continue
+				}
+				if err := track.Unbind(bound[k].ctx); err != nil {
+					run.Violation("unbind-error", fmt.Sprintf("Unbind of a bound context failed: %v (%s)", err, desc), i, detail(0, nil))
+
+					return false
+				}
+				unbinds++
+				bound = append(bound[:k], bound[k+1:]...)
+
+				return true
+			}
+
+			return true
+		}
+		if !bind(0) {
 			run.Case(desc, false)
 
 			return
@@ -333,8 +383,17 @@ func TestVerifC28(t *testing.T) { //nolint:gocyclo,cyclop,maintidx
 		nextSeq := seq0 // next sequence number to be used
 		var multi, fractional, anyDrop, anyEmpty, wrapTS, wrapSeq bool
 		var dropSinceObs, emptySinceObs bool // what happened since the last sample whose packets were observed
-		var packets, zeroPktSamples, maxAbsDiff int
+		var packets, zeroPktSamples, maxAbsDiff, unboundSamples, dropsAfterRebind, dropsMultiWriter int
 		failed := false
+		nextOp := 0
+		// hist qualifies a cause signature with the binding state the track is in
+		hist := func() string {
+			if binds > 1 {
+				return ":after-rebind"
+			}
+
+			return ""
+		}
 		tmp := new(big.Int)
 		flo := new(big.Int)
 
@@ -353,21 +412,70 @@ func TestVerifC28(t *testing.T) { //nolint:gocyclo,cyclop,maintidx
 					sm.Data = nil
 				}
 			}
-			w.mu.Lock()
-			w.pkts = w.pkts[:0]
-			w.mu.Unlock()
+			// binding operations scheduled before this sample
+			for nextOp < len(history) && history[nextOp].At <= k && !failed {
+				op := history[nextOp]
+				nextOp++
+				switch op.Kind {
+				case "bind":
+					failed = !bind(op.Slot)
+				case "unbind":
+					failed = !unbind(op.Slot)
+				case "rebind":
+					failed = !unbind(op.Slot) || !bind(op.Slot)
+				}
+			}
+			if failed {
+				break
+			}
+			for _, b := range bound {
+				b.ctx.w.mu.Lock()
+				b.ctx.w.pkts = b.ctx.w.pkts[:0]
+				b.ctx.w.mu.Unlock()
+			}
 			if err := track.WriteSample(sm); err != nil {
 				run.Violation("write-sample-error", fmt.Sprintf("WriteSample returned %v at sample %d (%s)", err, k, desc), i, detail(k, nil))
 				failed = true
 
 				break
 			}
-			got := w.pkts
+			observed := len(bound) > 0
+			var got []c28Pkt
+			if observed {
+				// every bound writer must have seen the same packets; judge the longest record against the model
+				ref := 0
+				for bi := range bound {
+					if len(bound[bi].ctx.w.pkts) > len(bound[ref].ctx.w.pkts) {
+						ref = bi
+					}
+				}
+				got = bound[ref].ctx.w.pkts
+				for bi := range bound {
+					other := bound[bi].ctx.w.pkts
+					same := len(other) == len(got)
+					for j := 0; same && j < len(got); j++ {
+						same = other[j].seq == got[j].seq && other[j].ts == got[j].ts
+					}
+					if !same && !failed {
+						run.Violation("bound-writers-disagree", fmt.Sprintf("sample %d: writer of binding slot %d observed %d packets %v, writer of slot %d observed %d packets %v (%s)",
+							k, bound[ref].slot, len(got), c28Head(got), bound[bi].slot, len(other), c28Head(other), desc), i, detail(k, nil))
+						failed = true
+					}
+				}
+				if s.Drop > 0 && binds > 1 {
+					dropsAfterRebind++
+				}
+				if s.Drop > 0 && len(bound) > 1 {
+					dropsMultiWriter++
+				}
+			} else {
+				unboundSamples++
+			}
 			packets += len(got)
 			if len(got) >= 2 {
 				multi = true
 			}
-			if len(got) == 0 {
+			if observed && len(got) == 0 {
 				zeroPktSamples++
 			}
 
@@ -426,7 +534,7 @@ func TestVerifC28(t *testing.T) { //nolint:gocyclo,cyclop,maintidx
 					case k == 0:
 						cause = "initial"
 					}
-					run.Violation("ts-off:"+cause, fmt.Sprintf("sample %d: observed ts %d, exact timeline says %d (origin %d + floor(%s ticks)), off by %d ticks (%s)",
+					run.Violation("ts-off:"+cause+hist(), fmt.Sprintf("sample %d: observed ts %d, exact timeline says %d (origin %d + floor(%s ticks)), off by %d ticks (%s)",
 						k, got[0].ts, want, tsOrigin, exact.FloatString(6), diff, desc), i,
 						detail(k, map[string]any{"observed_ts": got[0].ts, "expected_ts": want, "exact_ticks": exact.FloatString(9), "diff": diff}))
 					failed = true
@@ -444,8 +552,9 @@ func TestVerifC28(t *testing.T) { //nolint:gocyclo,cyclop,maintidx
 						} else if j == 0 {
 							cause = "seq-step-between-samples"
 						}
-						run.Violation(cause, fmt.Sprintf("sample %d packet %d: observed seq %d, expected %d (drop=%d) (%s)", k, j, got[j].seq, nextSeq, s.Drop, desc),
-							i, detail(k, map[string]any{"observed": fmt.Sprint(got), "expected_seq": nextSeq, "packet": j}))
+						run.Violation(cause+hist(), fmt.Sprintf("sample %d packet %d: observed seq %d, expected %d (drop=%d, %d Bind calls so far, %d writers bound) (%s)",
+							k, j, got[j].seq, nextSeq, s.Drop, binds, len(bound), desc),
+							i, detail(k, map[string]any{"observed": fmt.Sprint(got), "expected_seq": nextSeq, "packet": j, "binds_so_far": binds, "writers_bound": len(bound)}))
 						failed = true
 					}
 					if nextSeq == 65535 {
@@ -454,9 +563,15 @@ func TestVerifC28(t *testing.T) { //nolint:gocyclo,cyclop,maintidx
 					nextSeq++
 				}
 			}
-			if len(got) > 0 {
+			switch {
+			case len(got) > 0:
 				dropSinceObs, emptySinceObs = false, false
-			} else {
+			case observed:
+				emptySinceObs = true
+			default:
+				// nobody saw how many packets this sample produced: the sequence counter is re-synchronised at the
+				// next observed packet; the timeline (total) keeps running
+				seqKnown = false
 				emptySinceObs = true
 			}
 			// the sample's own duration follows it
@@ -465,9 +580,23 @@ func TestVerifC28(t *testing.T) { //nolint:gocyclo,cyclop,maintidx
 				break
 			}
 		}
-		_ = track.Unbind(ctx)
+		for len(bound) > 0 && !failed {
+			if !unbind(bound[0].slot) {
+				break
+			}
+		}
 
 		run.Case(desc, multi && fractional)
+		run.Seen("binding_history_class", histClass)
+		run.Seen("max_writers_bound_at_once", fmt.Sprint(maxBound))
+		run.Count("bind_calls", binds)
+		run.Count("unbind_calls", unbinds)
+		run.Count("samples_written_while_no_writer_bound", unboundSamples)
+		run.Count("drop_samples_judged_after_a_second_bind", dropsAfterRebind)
+		run.Count("drop_samples_judged_with_several_writers_bound", dropsMultiWriter)
+		if dropsAfterRebind > 0 {
+			run.Count("sequences_with_drop_after_a_second_bind", 1)
+		}
 		run.Count("samples_written", len(samples))
 		run.Count("packets_observed", packets)
 		run.Count("samples_yielding_no_packet", zeroPktSamples)
